@@ -5,6 +5,7 @@ CONSTANTS
   Focus = {"node"}
   Emit = "none"
   MaxBatch = 1
+  AsWritten = FALSE
 VIEW View
 INVARIANTS AtMostOnePrimary
 CHECK_DEADLOCK FALSE
